@@ -5,60 +5,46 @@ From DustDDS Require Import Base.Machine Xcdr.XcdrBytes Xcdr.XcdrBytesProofs Xcd
 Open Scope Z_scope.
 
 (* ------------------------------------------------------------ a decision is returned *)
-Lemma tid_assignable_total : forall tc t1 t2, tid_supported t1 = true ->
-  exists b, tid_assignable tc t1 t2 = Ok b.
+Lemma tid_assignable_total : forall tc t1 t2, exists b, tid_assignable tc t1 t2 = Ok b.
 Proof.
-  induction t1; intros t2 H; cbn [tid_supported] in H; try discriminate; cbn [tid_assignable]; eauto;
+  induction t1; intros t2; cbn [tid_assignable]; eauto;
     destruct t2; eauto;
     match goal with |- context [if ?c then _ else _] => destruct c end; eauto.
 Qed.
 
-Lemma zip_check_total : forall tc l1 l2,
-  forallb (fun m => tid_supported (sm_tid m)) l1 = true -> exists b, zip_check tc l1 l2 = Ok b.
+Lemma zip_check_total : forall tc l1 l2, exists b, zip_check tc l1 l2 = Ok b.
 Proof.
-  intros tc l1. induction l1 as [|m1 r1 IH]; intros l2 H; [eexists; reflexivity|].
-  destruct l2 as [|m2 r2]; [eexists; reflexivity|].
-  cbn [forallb] in H. apply andb_prop in H as [H1 H2]. cbn [zip_check].
+  intros tc l1. induction l1 as [|m1 r1 IH]; intros l2; [eexists; reflexivity|].
+  destruct l2 as [|m2 r2]; [eexists; reflexivity|]. cbn [zip_check].
   destruct (negb (sm_id m1 =? sm_id m2)); [eauto|].
   destruct (negb (tc_ign_names tc) && negb (sm_name m1 =? sm_name m2)); [eauto|].
-  destruct (tid_assignable_total tc (sm_tid m1) (sm_tid m2) H1) as [b ->]. cbn [bind].
-  destruct b; [now apply IH|eauto].
+  destruct (tid_assignable_total tc (sm_tid m1) (sm_tid m2)) as [b ->]. cbn [bind].
+  destruct b; [apply IH|eauto].
 Qed.
 
-Lemma find_sm_in : forall id ms m, find_sm id ms = Some m -> In m ms.
+Lemma members_check_total : forall tc ms1 l2 acc, exists r, members_check tc ms1 l2 acc = Ok r.
 Proof.
-  induction ms as [|a r IH]; intros m H; [discriminate|]. cbn [find_sm] in H.
-  destruct (sm_id a =? id); [inversion H; now left|right; now apply IH].
-Qed.
-
-Lemma members_check_total : forall tc ms1 l2 acc,
-  forallb (fun m => tid_supported (sm_tid m)) ms1 = true -> exists r, members_check tc ms1 l2 acc = Ok r.
-Proof.
-  intros tc ms1 l2. induction l2 as [|m2 r2 IH]; intros acc H; [eexists; reflexivity|].
-  cbn [members_check]. destruct (find_sm (sm_id m2) ms1) as [m1|] eqn:Hf.
+  intros tc ms1 l2. induction l2 as [|m2 r2 IH]; intros acc; [eexists; reflexivity|].
+  cbn [members_check]. destruct (find_sm (sm_id m2) ms1) as [m1|].
   - destruct (negb (tc_ign_names tc) && negb (sm_name m1 =? sm_name m2)); [eauto|].
-    rewrite forallb_forall in H. pose proof (H m1 (find_sm_in _ _ _ Hf)) as Hs.
-    destruct (tid_assignable_total tc (sm_tid m1) (sm_tid m2) Hs) as [b ->]. cbn [bind].
-    apply IH. now apply forallb_forall.
-  - destruct (negb (tc_ign_names tc) && has_name ms1 (sm_name m2)); [eauto|]. now apply IH.
+    destruct (tid_assignable_total tc (sm_tid m1) (sm_tid m2)) as [b ->]. cbn [bind]. apply IH.
+  - destruct (negb (tc_ign_names tc) && has_name ms1 (sm_name m2)); [eauto|]. apply IH.
 Qed.
 
-(* no todo!() is reached when the member type identifiers of the READER-side type object
-   (`self`) are supported *)
-Theorem assignable_total : forall tc t1 t2,
-  forallb (fun m => tid_supported (sm_tid m)) (st_members t1) = true ->
-  exists b, struct_assignable tc t1 t2 = Ok b.
+(* the decision never panics, whatever the two type objects (hostile flags and type
+   identifiers included) *)
+Theorem assignable_total : forall tc t1 t2, exists b, struct_assignable tc t1 t2 = Ok b.
 Proof.
-  intros tc t1 t2 H. unfold struct_assignable. destruct (stype_eqb t1 t2); [eauto|].
+  intros tc t1 t2. unfold struct_assignable. destruct (stype_eqb t1 t2); [eauto|].
   unfold struct_rules. cbv zeta.
   match goal with |- context [if ?c then Ok false else _] => destruct c end; [eauto|].
   assert (Hz : exists z, (if negb (st_mutable t1) && negb (st_mutable t2)
                           then zip_check tc (st_members t1) (st_members t2) else Ok true) = Ok z).
-  { destruct (negb (st_mutable t1) && negb (st_mutable t2)); [now apply zip_check_total|eauto]. }
+  { destruct (negb (st_mutable t1) && negb (st_mutable t2)); [apply zip_check_total|eauto]. }
   destruct Hz as [z ->]. cbn [bind]. destruct (negb z); [eauto|].
   destruct (negb (st_mutable t1) && negb (st_mutable t2) && st_final t1 && st_final t2); [eauto|].
   destruct (negb (existsb (fun x => has_id (st_members t1) (sm_id x)) (st_members t2))); [eauto|].
-  destruct (members_check_total tc (st_members t1) (st_members t2) true H) as [r ->]. cbn [bind].
+  destruct (members_check_total tc (st_members t1) (st_members t2) true) as [r ->]. cbn [bind].
   destruct r; [|eauto].
   destruct (mu_missing (st_members t1) (st_members t2) || mu_missing (st_members t2) (st_members t1)); [eauto|].
   destruct (key_missing (st_members t1) (st_members t2) || key_missing (st_members t2) (st_members t1)); eauto.
@@ -158,26 +144,17 @@ Proof.
   split; [|reflexivity]. repeat split; try reflexivity. eexists. split; reflexivity.
 Qed.
 
-(* class 5: todo!() *)
-Lemma witness_todo :
-  (forall tc t2, struct_assignable tc (mkST 1 1 [mkSM 0 1 0 TkNone]) (mkST 1 2 t2) = Panic P_TID_NONE \/
-                 t2 = [] \/ exists m r, t2 = m :: r /\ (sm_id m <> 0 \/ (tc_ign_names tc = false /\ sm_name m <> 0)
-                                                     \/ r <> [])) /\
-  struct_assignable tce_default (mkST 1 1 [mkSM 0 1 0 TkNone]) (mkST 1 2 [mkSM 0 1 0 TkInt32]) = Panic P_TID_NONE /\
-  struct_assignable tce_default (mkST 1 1 [mkSM 0 1 0 TiMapSmall]) (mkST 1 2 [mkSM 0 1 0 TkInt32]) = Panic P_TID_MAPS /\
-  struct_assignable tce_default (mkST 1 1 [mkSM 0 1 0 TiScc]) (mkST 1 2 [mkSM 0 1 0 TkInt32]) = Panic P_TID_SCC /\
-  struct_assignable tce_default (mkST 1 1 [mkSM 0 1 0 TiDefault]) (mkST 1 2 [mkSM 0 1 0 TkInt32]) = Panic P_TID_DEFAULT.
-Proof.
-  split; [|repeat split; reflexivity].
-  intros tc t2. destruct t2 as [|m r]; [right; now left|].
-  destruct r as [|m' r']; [|right; right; exists m, (m' :: r'); split; [reflexivity|]; right; right; discriminate].
-  destruct (Z.eq_dec (sm_id m) 0) as [Hid|Hid]; [|right; right; exists m, []; split; [reflexivity|]; now left].
-  destruct (tc_ign_names tc) eqn:Hign.
-  - left. unfold struct_assignable. cbn. rewrite Hid. cbn. rewrite Hign. reflexivity.
-  - destruct (Z.eq_dec (sm_name m) 0) as [Hn|Hn];
-      [|right; right; exists m, []; split; [reflexivity|]; right; left; now split].
-    left. unfold struct_assignable. cbn. rewrite Hid, Hn. cbn. rewrite Hign. reflexivity.
-Qed.
+(* former class 5 (todo!() on TkNone / maps / SCC / extended identifiers), repaired in /repo
+   (abb552f): such a member type is simply not assignable; a type object that has one is still
+   assignable from itself through the equality shortcut only *)
+Lemma unsupported_rejected :
+  struct_assignable tce_default (mkST 1 1 [mkSM 0 1 0 TkNone]) (mkST 1 2 [mkSM 0 1 0 TkInt32]) = Ok false /\
+  struct_assignable tce_default (mkST 1 1 [mkSM 0 1 0 TiMapSmall]) (mkST 1 2 [mkSM 0 1 0 TkInt32]) = Ok false /\
+  struct_assignable tce_default (mkST 1 1 [mkSM 0 1 0 TiScc]) (mkST 1 2 [mkSM 0 1 0 TkInt32]) = Ok false /\
+  struct_assignable tce_default (mkST 1 1 [mkSM 0 1 0 TiDefault]) (mkST 1 2 [mkSM 0 1 0 TkInt32]) = Ok false /\
+  struct_assignable tce_default (mkST 1 1 [mkSM 0 1 0 TkNone]) (mkST 1 1 [mkSM 0 1 0 TkNone]) = Ok true /\
+  struct_rules tce_default (mkST 1 1 [mkSM 0 1 0 TkNone]) (mkST 1 1 [mkSM 0 1 0 TkNone]) = Ok false.
+Proof. repeat split; reflexivity. Qed.
 
 (* class 6: appendable {@optional long a} := appendable {long a} *)
 Definition w6_t1 : adesc := mkAD Appendable 1 [mkAM (mkM 0 true false false false []) 0 false (APrim PI32)].
@@ -205,6 +182,21 @@ Lemma witness_typed_none :
     = Some [(0, VP KI32 5); (1, VP KI32 0)] /\
   C39_known (mkC39 (Ty V2 LE tce_default w7_t1 w7_t2 (VData w7_x)) (OAs (Ok true))) = 7%N.
 Proof. repeat split; try reflexivity. eexists. repeat split; reflexivity. Qed.
+
+(* outside class 7: the typed sample is delivered when every member the decoded data lacks is
+   optional or try_construct = USE_DEFAULT *)
+Lemma typed_sample_delivered : forall t1 d,
+  (forall m, In m (ad_members t1) ->
+     lookup (am_id m) d <> None \/ m_opt (am_info m) = true \/ am_use_default m = true) ->
+  exists s, typed_sample t1 d = Some s.
+Proof.
+  intros t1 d H. unfold typed_sample.
+  assert (Hall : forallb (typed_member_ok d) (ad_members t1) = true).
+  { apply forallb_forall. intros m Hm. unfold typed_member_ok.
+    destruct (lookup (am_id m) d) eqn:Hl; [reflexivity|].
+    destruct (H m Hm) as [Hc | [-> | ->]]; [congruence|reflexivity|apply Bool.orb_true_r]. }
+  rewrite Hall. eauto.
+Qed.
 
 (* the DESIGN.md candidate D35 (integer widening) is NOT present in this tree *)
 Lemma no_integer_widening :
